@@ -3,27 +3,46 @@ from __future__ import annotations
 
 import importlib
 
+OP_MODULES = ["contracts.c05"]
+MONITOR_MODULES = ["contracts.c26"]
 
-def op_units(prop, modules):
-    """all OpContracts of the given contract modules that list `prop`"""
+
+def op_units(prop):
     out = []
-    for m in modules:
+    for m in OP_MODULES:
         mod = importlib.import_module(m)
-        for c in mod.CONTRACTS:
+        for c in getattr(mod, "CONTRACTS", []):
             if prop in c.props:
                 out.append({"runner": "k1", "module": m, "name": c.name, "prop": prop, "id": c.uid})
     return out
 
 
-OP_MODULES = ["contracts.c05"]
+def monitor_units(prop):
+    out = []
+    for m in MONITOR_MODULES:
+        mod = importlib.import_module(m)
+        for c in getattr(mod, "MONITORS", []):
+            if prop in c.props:
+                out.append({"runner": "monitor", "module": m, "name": c.name, "prop": prop, "id": c.uid})
+    return out
+
+
+#: which unit families each property draws on
+FAMILIES = {
+    "C05": ["op"],
+    "C25": ["monitor"],
+    "C26": ["monitor"],
+    "C27": ["monitor"],
+}
 
 
 def units_for(prop, tier):
     us = []
-    us += op_units(prop, OP_MODULES)
+    fams = FAMILIES.get(prop, [])
+    if "op" in fams:
+        us += op_units(prop)
+    if "monitor" in fams:
+        us += monitor_units(prop)
     for u in us:
         u["tier"] = tier
     return us
-
-
-CLAIMED = ["C05"]
